@@ -151,6 +151,7 @@ def cases(tier, rng):
             hist.append([['next', min(2, total)], ['rest'], ['query'], ['next', 3], ['query'], ['rest'], ['next', 2],
                          ['reset'], ['rest'], ['next', 4], ['query']])
             hist.append(sc.kinds_history(cfg, fs, rng))
+            hist.append(sc.narrow_history(rng))
             if sc.accepts_float(cfg):
                 # float-typed counts as the stimulus reports them itself, one short of the end, to the end, past it
                 hist.append([['next', max(total - 1, 0), 'npf+scr'], ['query'], ['next', 1, 'pyf+scr'], ['query'],
